@@ -37,14 +37,14 @@ def sh(cmd, cwd=None, timeout=None, env=None, inp=None):
 
 
 class Ctx:
-    def __init__(self, prop, tier, seed):
+    def __init__(self, prop, tier, seed, keep_replays=False):
         self.prop, self.tier, self.seed = prop, tier, seed
         self.cfg = P.PROPS[prop]
         self.work = os.path.join(ROOT, 'work', prop, tier)
         shutil.rmtree(self.work, ignore_errors=True)
         os.makedirs(self.work, exist_ok=True)
         rd = os.path.join(ROOT, 'work', 'replays')
-        if os.path.isdir(rd) and tier in ('quick', 'thorough'):
+        if os.path.isdir(rd) and not keep_replays:
             for f in os.listdir(rd):
                 if f.startswith(prop + '_'):
                     os.remove(os.path.join(rd, f))
@@ -352,7 +352,7 @@ def main():
     if a.prop not in P.PROPS:
         print('unknown property', a.prop)
         sys.exit(2)
-    ctx = Ctx(a.prop, a.tier, seed)
+    ctx = Ctx(a.prop, a.tier, seed, keep_replays=bool(a.replay))
 
     # -- builds --------------------------------------------------------------------------
     okh, outh = build_harness(ctx)
